@@ -215,6 +215,16 @@ func (propC14) Gen(r *Rng, run uint64, tier string) *Plan {
 			p.Params.Limit = 1 + r.Intn(5)
 		}
 	}
+	if !tpl.metric && r.Bool(0.25) {
+		// Command level: the real cobra command; a failure must come back from
+		// Execute as an error and nothing may have been printed.
+		p.Harness = "cli"
+		argv := []string{"query", "--color=false", fmt.Sprintf("--start=%d", p.Params.Start), fmt.Sprintf("--end=%d", p.Params.End)}
+		if p.Params.Limit > 0 {
+			argv = append(argv, fmt.Sprintf("--limit=%d", p.Params.Limit))
+		}
+		p.CLI = &CLI{Now: end + 3600*sec, Argv: append(argv, p.Query)}
+	}
 	sizes := []int{len(contA)}
 	if tpl.twoSel {
 		sizes = append(sizes, len(contB))
@@ -501,9 +511,11 @@ func (propC14) Check(t *testing.T, p *Plan, st *Stats) *Violation {
 					rel = fmt.Sprintf("fail@%d/%d", oc.ReleaseOrd, len(o.Opens))
 				}
 			}
-			st.Signature(fmt.Sprintf("%s|%s|n=%d|%s|%s|%s|obs=%v|lim=%v|%v", p.Tags["template"], p.Tags["instant"], len(o.Opens), fk, p.Tags["pos"], rel, len(observed) > 0, p.Params.Limit > 0, o.BatchPerms))
+			st.Signature(fmt.Sprintf("%s|%s|%s|n=%d|%s|%s|%s|obs=%v|lim=%v|%v", p.Harness, p.Tags["template"], p.Tags["instant"], len(o.Opens), fk, p.Tags["pos"], rel, len(observed) > 0, p.Params.Limit > 0, o.BatchPerms))
 		}
 		st.Probe("template_" + p.Tags["template"])
+		st.ProbeIf(p.Harness == "cli", "command_level")
+		st.ProbeIf(p.Harness == "cli" && len(observed) > 0, "command_level_fault_observed")
 		for _, s := range o.Streams {
 			if s.CutClass != "" && s.EOFDelivered {
 				st.Probe("cut_" + s.CutClass + "_delivered")
@@ -565,10 +577,13 @@ func (propC14) Check(t *testing.T, p *Plan, st *Stats) *Violation {
 		}
 		return nil
 	}
+	if o.Failed && o.Stdout != "" {
+		return viol("C14(i:no-partial-output)", "no output from a command that fails", fmt.Sprintf("%d bytes printed before the error %s", len(o.Stdout), clip(o.ErrText, 200)))
+	}
 	if len(observed) > 0 {
 		// (i) an observed fault must surface as an error.
 		if !o.Failed {
-			return viol("C14(i:error-surfaces)", fmt.Sprintf("an error (the code was told about: %v)", observed), "nil error, "+o.Result.Summary())
+			return viol("C14(i:error-surfaces)", fmt.Sprintf("an error (the code was told about: %v)", observed), "nil error, "+o.Result.Summary()+fmt.Sprintf(", %d bytes of output", len(o.Stdout)))
 		}
 	} else {
 		switch {
@@ -601,7 +616,7 @@ func (propC14) Check(t *testing.T, p *Plan, st *Stats) *Violation {
 			if o2.Bad() || o2.Failed {
 				return viol("C14(iv:twin-succeeds)", "the fault-free twin succeeds", o2.ErrClass()+" "+clip(o2.ErrText+o2.Panic, 300))
 			}
-			if a, b := o.Result.Render(), o2.Result.Render(); a != b {
+			if a, b := o.Result.Render()+o.Stdout, o2.Result.Render()+o2.Stdout; a != b {
 				return viol("C14(ii:result-equals-twin)", "the fault-free twin's result: "+clip(b, 400), clip(a, 400))
 			}
 			if v := closeViol(o2, "fault-free twin"); v != nil {
@@ -633,6 +648,9 @@ func (propC14) ShrinkCandidates(p *Plan) []*Plan {
 		}
 		c := p.Clone()
 		c.Query = nt.build(p.Tags["selA"], p.Tags["selB"], p.Tags["range"])
+		if c.CLI != nil && len(c.CLI.Argv) > 0 {
+			c.CLI.Argv[len(c.CLI.Argv)-1] = c.Query
+		}
 		c.Tags["template"] = name
 		if !nt.metric && ct.metric {
 			continue
